@@ -1,4 +1,9 @@
 import RV.Proofs.SketchRow
+/-!
+Sketch-level lemmas (C18): the minimum fold of `Estimate` (generated `estLess` / `estInit`) is a
+true minimum, hence commutes with monotone per-counter maps; `Increment`, `Reset`, `Clear` on all
+rows under the well-formedness `WF` of `newCmSketch`.
+-/
 namespace RV.Sketch
 open Gen.Sketch
 
